@@ -142,6 +142,9 @@ func (w *Worker) allocGlobals(pkg *ssa.Package, into map[*ssa.Global]*value) {
 		if v, ok := m.(*ssa.Global); ok {
 			if _, ok := into[v]; !ok {
 				cell := zero(deref(v.Type()))
+				if txt, ok := embedVars[pkg.Pkg.Path()+"."+v.Name()]; ok {
+					cell = txt
+				}
 				into[v] = &cell
 			}
 		}
